@@ -28,6 +28,22 @@ theorem C14_cycle_rejected : CycleRejected .sound := by
   · simp [serialize, serFuel, MAX_BYTEARRAY_SIZE, ser, hd]
   · simp [buildParamToNative, natv, hd]
 
+/-- **The sound detector is exact, and its explicit bound is adequate**: on a heap without dangling references the `|heap|`
+rounds of the cycle search (each round inspects every object once — polynomial also on DAG-shaped sharing) never reject
+for lack of rounds: the detector answers "circular" exactly when a cycle is reachable or the (order independent) depth
+rule fires.  In particular acyclic values keep the verdict of the depth rule. -/
+theorem C14_sound_detector_exact (perm : Perm) (path : List Nat) (h : Heap) (nd : NoDangling h) (r : Ref) (hr : r < h.length) :
+    detect .sound perm path h (.ref r) = true ↔
+      (CycleReachable h (.ref r) ∨ chainDeep perm path h (MAX_STRUCT_DEPTH + 1) (.ref r) = true) := by
+  simp only [detect, detSound, Bool.or_eq_true]
+  constructor
+  · rintro (hc | hd)
+    · exact .inl (reachable_of_hasCycle h nd r hr hc)
+    · exact .inr hd
+  · rintro (hc | hd)
+    · exact .inl (hasCycle_of_reachable h _ hc)
+    · exact .inr hd
+
 /-- the witness `a = [1, a]` -/
 def cexHeap : Heap := [.arr [.int 1, .ref 0]]
 
